@@ -51,7 +51,14 @@ class SearchTerms:
     def __str__(self) -> str:
         """Get a String representation of this Search Term."""
         if self.method == PathSearchMethods.REGEX:
-            safe_term = "/{}/".format(self.term.replace("/", r"\/"))
+            # The delimiter cannot be escaped within the expression, so pick
+            # one which the expression does not contain
+            delim = "/"
+            for candidate in "/_#@|:;,`":
+                if candidate not in self.term:
+                    delim = candidate
+                    break
+            safe_term = "{}{}{}".format(delim, self.term, delim)
         else:
             # Replace unescaped spaces with escaped spaces
             safe_term = r"\ ".join(
